@@ -418,6 +418,7 @@ func c02OneCasePast(st *Store, es []entrySpec, how string, fanout int, nonMember
 	}
 	ls := st.LinkSystem()
 	st.RequireSession = len(es)%3 == 0 // (the store serves only loads that carry the request's context)
+	st.HonorCtx = true                 // (and refuses loads whose context is already done)
 	for _, reifier := range []string{"unixfs", "unixfs-preload"} {
 		dir, err := loadReified(ls, root, reifier)
 		if err != nil {
